@@ -922,6 +922,14 @@ def run_lim(res, ast, with_jit=True):
                 for alt in ("Instr::BrZ(_, _) | Instr::BrNZ(_, _)", "Instr::BrNZ(_, _) | Instr::BrZ(_, _)"):
                     if pm.match_expr(e, "if let " + alt + " = __v_inst { emit_limit(&mut __v_insts, __e_cost); }", {"__v_inst": b1["__v_inst"], "__v_insts": b1["__v_insts"]}):
                         br = True
+                # the same test written with matches!(inst, BrZ(..) | BrNZ(..))
+                c_ = strip_paren(e["cond"])
+                if c_["t"] == "MacroExpr" and c_["mac"]["name"] == "matches" and e.get("else") is None:
+                    toks = "".join((c_["mac"].get("tokens") or "").split())
+                    body_ok = pm.match_stmts(e["then"]["stmts"], "emit_limit(&mut __v_insts, __e_cost);", {"__v_insts": b1["__v_insts"]}) is not None
+                    both = {"Instr::BrZ(_,_)|Instr::BrNZ(_,_)", "Instr::BrNZ(_,_)|Instr::BrZ(_,_)"}
+                    if body_ok and toks.startswith(b1["__v_inst"] + ",") and toks[len(b1["__v_inst"]) + 1:] in both:
+                        br = True
             res.check(br, "LIM-BACKEDGE", f"{BCMOD}|build_threaded_code|branches", w, "under `limited` both BrZ and BrNZ must be preceded by emit_limit")
             # the fix-up loop, evaluated symbolically for one branch instruction i with offset off: the slice handed to adjust_branch must start
             # at the branch op itself (offs[i]) and the distance must be start[i + off] - offs[i]
@@ -1092,6 +1100,11 @@ def run_lim(res, ast, with_jit=True):
             if pn["t"] == "If" and k == "else" and strip_paren(pn["cond"])["t"] == "Unary" and strip_paren(pn["cond"])["op"] == "!" \
                     and path_name(strip_paren(strip_paren(pn["cond"])["expr"])) in GATE[0]:
                 return True
+            if pn["t"] == "Binary" and pn["op"] == "||" and k == "right":
+                # `!limited || X`: X is evaluated only when the run is limited
+                l_ = strip_paren(pn["left"])
+                if l_["t"] == "Unary" and l_["op"] == "!" and path_name(strip_paren(l_["expr"])) in GATE[0]:
+                    return True
             if pn["t"] == "Binary" and pn["op"] == "&&" and k == "right":
                 l_ = strip_paren(pn["left"])
                 conj = []
